@@ -259,7 +259,7 @@ def run(ctx):
     store.parallel(ctx, work_store, pairs)
     n = ctx.budget(240, 20000)
     store.parallel(ctx, work_generated, [ctx.seed * 100003 + i for i in range(n)])
-    store.parallel(ctx, work_patho, [ctx.seed * 7 + i for i in range(ctx.budget(30, 600))])
+    store.parallel(ctx, work_patho, [ctx.seed * 7 + i for i in range(ctx.budget(72, 900))])
 
 
 def replay(ctx, rec):
